@@ -4,7 +4,8 @@
    [hf8_def xs q] is the textbook estimate on the order statistics of [Qsort xs] (a verified
    sort: Base/GASort.v) with h = (N + 1/3) q + 1/3, q clamped to [0,1], order statistics clamped
    to the smallest and largest value. *)
-From MM Require Import Base.Num Base.GASort Model.Sample Model.Quantile Spec.Quantile Proofs.Quantile Proofs.QuantileW.
+From MM Require Import Base.Num Base.GASort Model.Sample Model.Quantile Spec.Quantile Proofs.Quantile Proofs.QuantileW
+  Proofs.CheckBase Check.C10 Proofs.CheckC10.
 From Coq Require Import Permutation Sorted Qround.
 Local Open Scope Q_scope.
 
@@ -159,3 +160,90 @@ Example C10_example_weighted_presentations :
   quantile (mkSample [2; 3; 1] (Some [2; 1; 1]) false) (3 # 10) = RVal 2 /\
   Wle (combine [3; 1; 2] [1; 1; 2]) 2 == 3 /\ Wle (combine [3; 1; 2] [1; 1; 2]) 1 == 1.
 Proof. vm_compute. repeat split; reflexivity. Qed.
+
+(* ====================================================================== *)
+(* What an accepted verdict of the correspondence comparator certifies (Proofs/CheckC10.v). *)
+(* ====================================================================== *)
+(* A line is a list of steps (a plain line: one step; a history line: ONE Sample whose backing
+   arrays are overwritten in place between the steps, each step recorded with the values current
+   then).  If check_C10 accepts the line (verdict code c = 0 ok or 1 borderline), then for EVERY
+   step [case_ok c step] holds (Proofs/CheckC10.v), i.e. with xs/ws the step's data:
+   - the "sample unmodified" flag is 1; Weights has the length of Xs; Sorted only on ascending data;
+   - empty sample: every Quantile(q) and IQR returned NaN (status 0);
+   - unweighted: every Quantile(q) returned (status 0) a finite v with
+       v == hf8_def xs q                                             for q <= 0 or q >= 1,
+       |v - hf8_def xs q| <= tol_unw xs + hf8_const_err xs q         otherwise
+     (hf8_const_err = the proved distance (1+q) 2^-54/3 (max-min) caused by the float constant), and
+     IQR returned v with |v - (hf8_def xs 3/4 - hf8_def xs 1/4)| <= tol_iqr_unw xs + both const errors;
+   - weighted: there is an ascending arrangement ps of the (value, weight) pairs such that every
+     Quantile(q), 0<q<1, returned (a number == ) the value at the first position of ps whose cumulative
+     weight exceeds t, the last value if none does (wq_at), for a target t that is q*W or one of
+     the two ends q*W -+ tol_wtarget of the borderline window (in_window) - and t = q*W for every
+     query when the verdict code is 0; for q <= 0 / q >= 1 the least / greatest value that carries
+     a non-zero weight (NaN if there is none); IQR returned v with |v - (a - b)| <= tol_iqr_w xs for
+     a, b such values at q = 3/4 and 1/4 (targets in their windows). *)
+Theorem C10_check_ok_sound : forall line c tag pos diag hist cases,
+  check_C10 line = verdict c tag pos diag -> (c = 0 \/ c = 1)%Z ->
+  p_line line = Some ((hist, cases), []) -> Forall (case_ok c) cases.
+Proof. exact check_ok_sound. Qed.
+Print Assumptions C10_check_ok_sound.
+
+(* the same for one step: check_case is what check_C10 runs on every step *)
+Theorem C10_check_case_sound : forall c v t p d,
+  check_case c = (v, t, p, d) -> (v = 0 \/ v = 1)%Z -> case_ok v c.
+Proof. exact check_case_sound. Qed.
+Print Assumptions C10_check_case_sound.
+
+(* per observable: one unweighted query / the weighted scan candidates *)
+Theorem C10_compare_unweighted_query_sound : forall sorted xs ws ps W wex q st obs,
+  xs <> [] -> (sorted = true -> StronglySorted Qle xs) ->
+  q_code (check_q (csample sorted false xs ws) (csorted sorted false xs ws) ps W wex (tol_unw xs) q st obs) <> 2%Z ->
+  unw_q_ok xs (q, st, obs).
+Proof. exact check_q_unw. Qed.
+Print Assumptions C10_compare_unweighted_query_sound.
+
+Theorem C10_compare_weighted_query_sound : forall sorted xs ws wex q st obs,
+  xs <> [] -> length ws = length xs -> (sorted = true -> StronglySorted Qle xs) ->
+  let s' := csorted sorted true xs ws in
+  let ps := cpairs s' in
+  let c := q_code (check_q (csample sorted true xs ws) s' ps (wtotal ps) wex (tol_unw xs) q st obs) in
+  c <> 2%Z -> w_q_ok xs ws ps (q, st, obs) /\ ((c <= 0)%Z -> w_q_exact ps (q, st, obs)).
+Proof. exact check_q_w. Qed.
+Print Assumptions C10_compare_weighted_query_sound.
+
+(* Non-vacuity: real lines of the harness (Go output on /repo) that the comparator accepts. *)
+(* {15,20,35,40,50} (TestSampleQuantile) at q = 0.4, 0.5, -1, 2, 0.01: ok, tag 155 *)
+Example C10_check_example_unweighted :
+  let line := [10; 0; 0; 5; 0x4041800000000000; 0x402e000000000000; 0x4049000000000000; 0x4034000000000000; 0x4044000000000000; 0; 5; 0x3fd999999999999a; 0; 0x403b000000000000; 0x3fe0000000000000; 0; 0x4041800000000000; 0xbff0000000000000; 0; 0x402e000000000000; 0x4000000000000000; 0; 0x4049000000000000; 0x3f847ae147ae147b; 0; 0x402e000000000000; 0; 0x4038ffffffffffff; 1]%Z in
+  check_C10 line = verdict 0 155 (-1) [] /\ exists c, p_line line = Some ((false, [c]), []).
+Proof. vm_compute. split; [reflexivity|eexists; reflexivity]. Qed.
+(* weighted {3:1, 1:1, 2:2} at q = 0.3, 0.25, 0.2, 0.8, 0, 1: ok *)
+Example C10_check_example_weighted :
+  let line := [10; 0; 1; 3; 0x4008000000000000; 0x3ff0000000000000; 0x4000000000000000; 3; 0x3ff0000000000000; 0x3ff0000000000000; 0x4000000000000000; 6; 0x3fd3333333333333; 0; 0x4000000000000000; 0x3fd0000000000000; 0; 0x4000000000000000; 0x3fc999999999999a; 0; 0x3ff0000000000000; 0x3fe999999999999a; 0; 0x4008000000000000; 0; 0; 0x3ff0000000000000; 0x3ff0000000000000; 0; 0x4008000000000000; 0; 0x3ff0000000000000; 1]%Z in
+  check_C10 line = verdict 0 1080 (-1) [] /\ exists c, p_line line = Some ((false, [c]), []).
+Proof. vm_compute. split; [reflexivity|eexists; reflexivity]. Qed.
+(* weighted {1:1, 2:2} at q = fl(1/3): q*W rounds to 1.0 in float64, the float scan returns 2 where
+   the exact scan returns 1: accepted as BORDERLINE (code 1, tag bit 512) *)
+Example C10_check_example_borderline :
+  let line := [10; 0; 1; 2; 0x3ff0000000000000; 0x4000000000000000; 2; 0x3ff0000000000000; 0x4000000000000000; 2; 0x3fd5555555555555; 0; 0x4000000000000000; 0x3fe0000000000000; 0; 0x4000000000000000; 0; 0x3ff0000000000000; 1]%Z in
+  match check_C10 line with code :: tag :: _ => code = 1%Z /\ Z.land tag 512 = 512%Z | _ => False end.
+Proof. vm_compute. split; reflexivity. Qed.
+(* a history of three steps on one backing array: {5,4,0}, overwritten by {4,0,5}, then {0,4,7} Sorted *)
+Example C10_check_example_history :
+  let line := [10; 2; 3; 0; 0; 3; 0x4014000000000000; 0x4010000000000000; 0; 0; 1; 0x3fe0000000000000; 0; 0x4010000000000000; 0; 0x4010aaaaaaaaaaab; 1; 0; 0; 3; 0x4010000000000000; 0; 0x4014000000000000; 0; 2; 0x3fe0000000000000; 0; 0x4010000000000000; 0x3fd0000000000000; 0; 0x3fe5555555555558; 0; 0x4010aaaaaaaaaaab; 1; 1; 0; 3; 0; 0x4010000000000000; 0x401c000000000000; 0; 1; 0x3fe0000000000000; 0; 0x4010000000000000; 0; 0x4017555555555555; 1]%Z in
+  check_C10 line = verdict 0 2241 (-1) [] /\ exists c1 c2 c3, p_line line = Some ((true, [c1; c2; c3]), []).
+Proof. vm_compute. split; [reflexivity|do 3 eexists; reflexivity]. Qed.
+
+(* the decoder reads the right fields: the first line above parses to the sample {35,15,50,20,40},
+   unsorted, unweighted, five queries that all returned (status 0), the second one Quantile(0.5) = 35,
+   IQR = 42.5 - 17.5 = 25 (status 0), unmodified = 1 *)
+Example C10_parse_example :
+  match p_line [10; 0; 0; 5; 0x4041800000000000; 0x402e000000000000; 0x4049000000000000; 0x4034000000000000; 0x4044000000000000; 0; 5; 0x3fd999999999999a; 0; 0x403b000000000000; 0x3fe0000000000000; 0; 0x4041800000000000; 0xbff0000000000000; 0; 0x402e000000000000; 0x4000000000000000; 0; 0x4049000000000000; 0x3f847ae147ae147b; 0; 0x402e000000000000; 0; 0x4038ffffffffffff; 1]%Z with
+  | Some ((false, [(sorted, hasw, xs, ws, qs, ist, iv, unm)]), []) =>
+      sorted = false /\ hasw = false /\ Forall2 Qeq xs [35; 15; 50; 20; 40] /\ ws = [] /\
+      map (fun x => snd (fst x)) qs = [0; 0; 0; 0; 0]%Z /\
+      match nth_error qs 1 with Some (q, _, XFin r) => q == 1 # 2 /\ r == 35 | _ => False end /\
+      ist = 0%Z /\ match iv with XFin v => Qabs (v - 25) <= 1 # 1000000000 | _ => False end /\ unm = 1%Z
+  | _ => False
+  end.
+Proof. vm_compute. repeat split; try reflexivity; try discriminate; repeat constructor. Qed.
